@@ -13,7 +13,7 @@ stored key drops exactly the truly empty children of possibly-empty rules
 from . import search_common as S
 
 ID = "C04"
-QUICK_RUNS = 2400
+QUICK_RUNS = 6000
 CHUNK = 20
 THOROUGH_BUDGET_S = 900
 WATCHDOG = 45.0
